@@ -198,6 +198,63 @@ pub fn group_scheme<S: SizeLaw>(rec: &mut Rec, cfgs: Vec<KeyCfg>) {
                 }
             }
         }
+        // combination proofs (schemes with their own open_combinations): a combination proof is a batch proof over
+        // the combinations' point labels plus an absent evaluation list; a combination of non-hiding polynomials
+        // carries no blinding, one with a hiding term does
+        if !S::DEFAULT_BATCH {
+            use ark_poly_commit::{LCTerm, LinearCombination};
+            let r2 = rho::<S::F>(rec.seed, 2);
+            let mut l0 = LinearCombination::<S::F>::empty("L0");
+            l0.push((S::F::one(), LCTerm::PolyLabel("p0".into())));
+            let mut l1 = LinearCombination::<S::F>::empty("L1");
+            l1.push((r2, LCTerm::PolyLabel("p0".into())));
+            l1.push((S::F::one(), LCTerm::One));
+            let mut l2 = LinearCombination::<S::F>::empty("L2");
+            l2.push((S::F::one(), LCTerm::PolyLabel("p1".into())));
+            for variant in 0..3usize {
+                let lcs: Vec<LinearCombination<S::F>> = match variant {
+                    0 => vec![l0.clone(), l1.clone()],
+                    1 => vec![l0.clone(), l1.clone(), l2.clone()],
+                    _ => vec![l2.clone()],
+                };
+                let mut qs = QuerySet::<S::Pt>::new();
+                let mut want = 8 + 1;
+                let (polys, comms, states) = c.refs();
+                match variant {
+                    0 => {
+                        qs.insert(("L0".into(), ("z0".into(), pts[0].1.clone())));
+                        qs.insert(("L1".into(), ("z0".into(), pts[0].1.clone())));
+                        qs.insert(("L1".into(), ("z1".into(), pts[1].1.clone())));
+                        want += 2 * S::proof_size(&cfg, &[&c.polys[0]]);
+                    }
+                    1 => {
+                        qs.insert(("L0".into(), ("z0".into(), pts[0].1.clone())));
+                        qs.insert(("L1".into(), ("z0".into(), pts[0].1.clone())));
+                        qs.insert(("L2".into(), ("z1".into(), pts[1].1.clone())));
+                        want += S::proof_size(&cfg, &[&c.polys[0]]) + S::proof_size(&cfg, &[&c.polys[1]]);
+                    }
+                    _ => {
+                        qs.insert(("L2".into(), ("z0".into(), pts[0].1.clone())));
+                        want += S::proof_size(&cfg, &[&c.polys[1]]);
+                    }
+                }
+                let mut sponge = sponge_pre::<S::F>(0);
+                let mut rng = seed_rng(rec.seed, 20);
+                match do_open_comb::<S>(&keys.ck, &lcs, &polys, &comms, &qs, &mut sponge, &states, Some(&mut rng as &mut dyn ark_std::rand::RngCore)) {
+                    Ok(pf) => {
+                        rec.count_points(1);
+                        rec.op(1);
+                        let (bytes, reported) = sz(&pf);
+                        rec.obs(&format!("{}|lc|{}|{}", S::NAME, variant, bytes == want));
+                        if bytes != want || reported != bytes {
+                            ok = false;
+                            viol(rec, S::NAME, "proof-size", &id, format!("combination proof (variant {}: {} combinations) has {} bytes (serialized_size {}), the scheme's law gives {}", variant, lcs.len(), bytes, reported, want));
+                        }
+                    }
+                    Err(o) => viol(rec, S::NAME, "open_combinations/in-domain", &id, format!("open_combinations failed: {}", o.short())),
+                }
+            }
+        }
         rec.class(if ok { "size-law-holds" } else { "size-law-broken" });
         rec.sample(&format!("{}-size", S::NAME), id.clone());
     }
